@@ -158,6 +158,21 @@ func runC03(c *Ctx) {
 		e, r, s := c.rng.Bytes(32), be32(randK(c)), be32(randK(c))
 		do("small-x-key", be32(x), be32(y), e, r, s)
 		do("x+p-key", be32(new(big.Int).Add(x, curveP)), be32(y), e, r, s)
+		// a (digest, signature) triple that IS valid for the canonical key (any on-curve key admits one: choose s, t,
+		// R = [s]G+[t]P, r = t-s, e = r-x_R): accepted for (x, y), and must be refused for the alias encodings x+p,
+		// y+p of the same point (seeded C03-c accepted x = p for the point with x = 0)
+		P := affPt{x: x, y: y}
+		sv, tv := randK(c), randK(c)
+		R := affAdd(affMul(sv, affG()), affMul(tv, P))
+		rv := modN(new(big.Int).Sub(tv, sv))
+		if !R.inf && rv.Sign() != 0 {
+			ev := modN(new(big.Int).Sub(rv, R.x))
+			do("small-x-key/forged-valid", be32(x), be32(y), be32(ev), be32(rv), be32(sv))
+			do("x+p-key/forged-valid", be32(new(big.Int).Add(x, curveP)), be32(y), be32(ev), be32(rv), be32(sv))
+			if yp := new(big.Int).Add(y, curveP); yp.BitLen() <= 256 {
+				do("y+p-key/forged-valid", be32(x), be32(yp), be32(ev), be32(rv), be32(sv))
+			}
+		}
 	}
 	for i := 0; i < 20; i++ {
 		do("random", c.rng.Bytes(32), c.rng.Bytes(32), c.rng.Bytes(32), c.rng.Bytes(32), c.rng.Bytes(32))
@@ -310,6 +325,8 @@ func runC13(c *Ctx) {
 	c.res.Rule = "ZA for id lengths 0..40, 8190..8194, 65535, 65536, 70000 and random public keys; Sign/Verify with id and message against SignHashed/VerifyHashed on e = SM3(ZA || M) via model and specification, messages of every length modulo 64 (ZA||M and the ZA preimage cross SM3 padding boundaries; id length 53 and message length 23 mod 64 are the 55-mod-64 cases); class = (id length class, message residue)"
 	kp := randKey(c)
 	za := func(cl string, id, px, py []byte) {
+		// the request is written down BEFORE the call (the call must not be able to change what is compared)
+		req := fmt.Sprintf("sm2.za %s %s %s", hexOrDash(id), hexOrDash(px), hexOrDash(py))
 		impl := try(func() string {
 			z, err := sm2.ZA(id, px, py)
 			if err != nil {
@@ -317,7 +334,6 @@ func runC13(c *Ctx) {
 			}
 			return fmt.Sprintf("ok %x", z)
 		})
-		req := fmt.Sprintf("sm2.za %s %s %s", hexOrDash(id), hexOrDash(px), hexOrDash(py))
 		c.Case("sm2.za", cl, false, req)
 		c.Check3("sm2.za", cl, req, "sm2.za.spec"+req[len("sm2.za"):], impl)
 	}
@@ -333,6 +349,12 @@ func runC13(c *Ctx) {
 	for i := 0; i < 5; i++ {
 		k2 := randKey(c)
 		za("otherkey", []byte("1234567812345678"), k2.px, k2.py)
+	}
+	// id, xA, yA as consecutive sub-slices of ONE record (id has spare capacity reaching over the key): ZA must bind
+	// the values, wherever they live (seeded C13-c built the hash input by appending to id)
+	for _, l := range []int{0, 1, 16, 53, 200} {
+		rec := append(append(append(c.rng.Bytes(l), kp.px...), kp.py...), c.rng.Bytes(200)...)
+		za(fmt.Sprintf("record/idlen=%d", l), rec[:l], rec[l:l+32], rec[l+32:l+64])
 	}
 	maxMsg := 130
 	if c.tier == "thorough" {
